@@ -46,6 +46,12 @@ type SOmit2 struct {
 	Cnt  int64  `db:"cnt,omitempty"`
 }
 
+type SOmitPtr struct {
+	ID    int64   `db:"id"`
+	Cnt   *int64  `db:"cnt,omitempty"`
+	Label *string `db:"label,omitempty"`
+}
+
 type SEmb struct {
 	SPerson
 	Extra string `db:"extra"`
@@ -64,6 +70,7 @@ var sqliteTypes = []sqliteType{
 	{reflect.TypeOf(SNullable{}), []string{"age", "id", "ni", "nick", "ns"}, "id INTEGER, nick TEXT, age INTEGER, ns TEXT, ni INTEGER"},
 	{reflect.TypeOf(SOmit{}), []string{"id", "name", "score"}, "id INTEGER, name TEXT, score REAL"},
 	{reflect.TypeOf(SOmit2{}), []string{"cnt", "id", "note"}, "id INTEGER, note TEXT, cnt INTEGER"},
+	{reflect.TypeOf(SOmitPtr{}), []string{"cnt", "id", "label"}, "id INTEGER, cnt INTEGER DEFAULT 7, label TEXT DEFAULT 'unset'"},
 	{reflect.TypeOf(SEmb{}), []string{"active", "data", "extra", "id", "name", "score"}, "id INTEGER, name TEXT, score REAL, data BLOB, active BOOLEAN, extra TEXT"},
 }
 
@@ -106,7 +113,9 @@ func fillSQLite(r *rng.R, v reflect.Value, id int64) {
 		case reflect.Pointer:
 			if !zero {
 				p := reflect.New(f.Type().Elem())
-				if p.Elem().Kind() == reflect.String {
+				if r.Chance(1, 3) {
+					// a non-nil pointer to the zero value
+				} else if p.Elem().Kind() == reflect.String {
 					p.Elem().SetString(fmt.Sprintf("n%d", r.Intn(99)))
 				} else {
 					p.Elem().SetInt(int64(r.Intn(99)))
